@@ -65,15 +65,50 @@ def rel_str(r):
     return '%s %s %s' % (show(r[1]), sym, show(r[2]))
 
 
+def expand_rel(r):
+    """a true range-membership test is the conjunction of its two bound comparisons:
+    (a..=b).contains(&x) is a <= x && x <= b; (a..b).contains(&x) is a <= x && x < b"""
+    if r[0] == 'bool' and r[2] and r[1][0] == 'call' and re.search(r'Range(Inclusive)?::<.*>::contains$|Range(Inclusive)?<.*>::contains$', r[1][1]) and len(r[1][2]) == 2:
+        rng, x = _val(r[1][2][0]), _val(r[1][2][1])
+        lo = hi = None
+        incl = None
+        if rng[0] == 'call' and re.search(r'RangeInclusive::<.*>::new$|RangeInclusive::new$', rng[1]) and len(rng[2]) == 2:
+            lo, hi, incl = rng[2][0], rng[2][1], True
+        elif rng[0] == 'aggr' and rng[2].endswith('ops::Range::Range'):
+            f = dict(rng[3])
+            lo, hi, incl = f.get('start'), f.get('end'), False
+        elif rng[0] == 'aggr' and 'RangeInclusive' in rng[2]:
+            f = dict(rng[3])
+            lo, hi, incl = f.get('start'), f.get('end'), True
+        if lo is not None and hi is not None:
+            return [('le', _val(lo), x), ('le' if incl else 'lt', x, _val(hi))]
+    return [r]
+
+
 def facts_to_rels(facts):
     """turn ('cond', E, truth) facts into normalised relations; other facts unchanged."""
     out = []
     for f in facts:
         if f[0] == 'cond':
-            out.append(norm_rel(f[1], f[2]))
+            out.extend(expand_rel(norm_rel(f[1], f[2])))
         else:
             out.append(f)
     return out
+
+
+def closure_apply(prog, clo, args):
+    """return expression of the closure value `clo` (an ('aggr','closure',path,upvars) expression of its creator)
+    applied to `args`, expressed in the creator's frame: captured variables resolve through the aggregate"""
+    clo = peel(clo)
+    if clo[0] != 'aggr' or clo[1] != 'closure':
+        return None
+    cb = prog.bodies.get(clo[2])
+    if cb is None:
+        return None
+    mapping = {1: clo}
+    for i, a in enumerate(args):
+        mapping[i + 2] = a
+    return mir.subst(cb.ret_expr(), mapping)
 
 
 def affine(e):
